@@ -42,7 +42,7 @@ void plan_init(struct plan *p)
 	memset(p, 0, sizeof(*p));
 	p->cfg.start_ns = 1000000000LL;
 	p->cfg.max_steps = 400000;
-	p->cfg.max_vtime_ns = 900LL * 1000000000LL;
+	p->cfg.max_vtime_ns = 4000LL * 1000000000LL;
 }
 
 void plan_print(const struct plan *p, FILE *f)
